@@ -608,6 +608,11 @@ func (rule *RuleAction) checkAction(meta *ActionMetadata, exec *ExecAction, desc
 		i := meta.Inputs[id]
 		if i.Required {
 			if _, ok := exec.Inputs[id]; !ok {
+				// "args" and "entrypoint" at "with:" are parsed into dedicated fields of ExecAction
+				// instead of Inputs. An action may declare inputs with these names.
+				if id == "args" && exec.Args != nil || id == "entrypoint" && exec.Entrypoint != nil {
+					continue
+				}
 				ns := make([]string, 0, len(meta.Inputs))
 				for _, i := range meta.Inputs {
 					if i.Required {
